@@ -7,8 +7,8 @@ from lbsa.index import Program
 from lbsa import frozen
 prog = Program(sys.argv[1] if len(sys.argv) > 1 else "/repo")
 out, missing = {}, []
-for pid, rows in sorted(frozen.PRIMITIVES.items()):
-    for unit, why in rows:
+for pid in sorted(frozen.PRIMITIVES):
+    for unit, why in frozen.rows_for(pid):
         try:
             us = frozen.expand_units(prog, unit)
         except Exception as e:
